@@ -596,7 +596,8 @@ class Ev:
         cg = [norm(self.concrete_ty(t)) for t in gargs]
         cands = [rr for rr in self.facts.all_fns() if rr.get("trait_item") == trait_item and norm(rr.get("self_ty") or "") == cg[0]]
         if len(cands) > 1 and len(cg) > 1:
-            narrowed = [rr for rr in cands if cg[1] in [norm(x) for x in rr["sig"]]]
+            exact = [rr for rr in cands if len(rr["sig"]) > 1 and norm(rr["sig"][1]) == cg[1]]          # the second operand's type, position by position
+            narrowed = exact or [rr for rr in cands if cg[1] in [norm(x) for x in rr["sig"]]]
             cands = narrowed or cands
         return cands[0]["fn"] if len(cands) == 1 else None
 
@@ -752,13 +753,26 @@ class Ev:
     def overloaded(self, e, vals, depth):
         callee = e.get("resolved") or e.get("callee")
         if callee and self.facts.fn(callee) is not None:
+            hook = next((h for suffix, h in self.hooks.items() if not suffix.startswith("@") and callee.endswith(suffix)), None)
+            if hook is not None:
+                return hook(self, vals, e)          # an operator impl a rule summarises (as any other summarised function)
             return self.apply_fn(callee, vals, depth)
         # inside a generic function the operator is the trait method on a type parameter: select the in-crate impl by the operands' actual kinds
         tys = [v.adt if isinstance(v, Rec) else ("f64" if isinstance(v, Poly) else None) for v in vals]
         if callee and None not in tys:
             for rr in self.facts.all_fns():
                 if rr.get("trait_item") == callee and [t.replace("&", "") for t in rr["sig"]] == tys:
+                    hook = next((h for suffix, h in self.hooks.items() if not suffix.startswith("@") and rr["fn"].endswith(suffix)), None)
+                    if hook is not None:
+                        return hook(self, vals, e)
                     return self.apply_fn(rr["fn"], vals, depth)
+        # opaque operands of a type parameter's type (`acc + x` with acc, x: T inside a generic helper inlined at T := Number): the impl by the static types
+        sts = [((e.get(side) or {}).get("ty") or "").replace("&", "").strip() for side in ("l", "r")]
+        if callee and all(sts):
+            fn_ = self.resolve_generic(callee, sts)
+            if fn_ is not None:
+                hook = next((h for suffix, h in self.hooks.items() if not suffix.startswith("@") and fn_.endswith(suffix)), None)
+                return hook(self, vals, e) if hook is not None else self.apply_fn(fn_, vals, depth)
         raise Unsupported("operator on struct operands without a local impl: %s" % callee)
 
     def ev_bin(self, e, env, depth):
@@ -811,7 +825,12 @@ class Ev:
         if not (isinstance(l, Poly) and isinstance(r, Poly)) and op in ("Add", "Sub", "Mul", "Div", "Rem"):
             callee = e.get("resolved") or e.get("callee")
             if callee and self.facts.fn(callee) is not None:
-                return self.apply_fn(callee, [l, r], depth)
+                return self.overloaded(e, [l, r], depth)          # (summarised by a hook, or inlined)
+            if callee and self.tymaps and self.tymaps[-1] and not isinstance(l, (Arr, ArrView)) and not isinstance(r, (Arr, ArrView)):
+                try:
+                    return self.overloaded(e, [l, r], depth)      # an operator on a type parameter inside an inlined generic function
+                except Unsupported:
+                    pass
         if isinstance(l, Poly) and isinstance(r, Poly):
             if op == "Add":
                 return l + r
@@ -1430,11 +1449,16 @@ class Ev:
             # `let mut v = Vec::new(); for x in seq { .. v.push(f(x)) .. }` is `seq.map(f).collect()`: element idx is what one execution of the body pushes
             push_ids = []
             for e_ in hir.walk(x["body"]):
-                if e_.get("k") == "mcall" and e_["m"] == "push":
+                if e_.get("k") == "mcall" and (e_["m"] == "push" or (e_["m"] in ("insert", "push_back") and len(e_["args"]) in (1, 2))):
                     t_ = strip_refs(e_["recv"])
                     if t_.get("k") == "path" and t_.get("res") == "local" and t_["id"] not in push_ids:
                         cur = env.get(t_["id"])
-                        if (isinstance(cur, Tup) and not cur.items) or (isinstance(cur, Sym) and cur.tag[:2] == ("call", "std::vec::Vec::<T>::with_capacity")):
+                        fresh = isinstance(cur, Sym) and cur.tag[0] == "call" and isinstance(cur.tag[1], str) and re.search(r"::(new|with_capacity|default)$", cur.tag[1]) and \
+                            re.search(r"(HashSet|BTreeSet|IndexSet|HashMap|BTreeMap|IndexMap)\b" if e_["m"] == "insert" else r"(Vec|VecDeque)\b", cur.tag[1])          # (Vec::insert(i, v) is positional: not this form)
+                        if (isinstance(cur, Tup) and not cur.items) or (isinstance(cur, Sym) and cur.tag[:2] == ("call", "std::vec::Vec::<T>::with_capacity")) or \
+                                (e_["m"] != "push" and fresh and sum(1 for e2_ in hir.walk(x["body"]) if e2_.get("k") == "mcall" and e2_["m"] == e_["m"] and
+                                                                     strip_refs(e2_["recv"]).get("id") == t_["id"]) == 1):
+                            # (a fresh set or map filled by one insert per iteration is `seq.map(..).collect()` as well)
                             push_ids.append(t_["id"])
             env0 = fork_env(env) if push_ids else None
             # `for _ in a..b { x = f(x) }` applies f a fixed number of times: the `repeat` form of a counted while loop / a range fold. Recognised when the body
@@ -1452,6 +1476,36 @@ class Ev:
                         ph = Sym("loopvar", len(reps))
                         reps[vid] = (env[vid], ph)
                         env[vid] = ph
+            # `let mut acc = z; for x in seq { acc = f(acc, x) }` is `seq.fold(z, |acc, x| f(acc, x))`: one assignment to one outer local, which the right-hand
+            # side reads — the same canonical form as the iterator adaptor (a range source keeps the counted-loop form above)
+            if not push_ids and not reps and not self.loops and not self.guards and len(bst) == 1 and bst[0]["k"] in ("expr", "semi") and \
+                    bst[0]["e"].get("k") in ("assign", "assignop") and strip_refs(bst[0]["e"]["l"]).get("k") == "path" and strip_refs(bst[0]["e"]["l"]).get("res") == "local" and \
+                    strip_refs(bst[0]["e"]["l"])["id"] in env and not (isinstance(ksrc, tuple) and ksrc[:2] == ("sym", "range")) and \
+                    isinstance(env[strip_refs(bst[0]["e"]["l"])["id"]], (Poly, Rec, Sym)):
+                st_ = bst[0]["e"]
+                vid = strip_refs(st_["l"])["id"]
+                reads = any(e2_.get("k") == "path" and e2_.get("res") == "local" and e2_.get("id") == vid for e2_ in hir.walk(st_["r"])) or st_["k"] == "assignop"
+                init = env[vid]
+                if reads and not (isinstance(init, Poly) and init.order):
+                    accv = Poly.atom("acc") if isinstance(init, Poly) else (operand("acc", init.adt) if isinstance(init, Rec) and init.adt.startswith("dual::dual::Dual") else Sym("acc"))
+                    qn = "q%d" % len(self.loops)
+                    env2 = dict(env)
+                    env2[vid] = accv
+                    self.bind(x["pat"], it.fn(Poly.atom(qn)), env2)
+                    self.loops.append(("q", vkey(it.src)))
+                    saved_loops = self.loops
+                    try:
+                        self.loops = []          # the step is evaluated as a closure body would be (not as a statement of a summarised loop)
+                        if st_["k"] == "assign":
+                            body_v = self.collapse(self.eval(st_["r"], env2, depth))
+                        else:
+                            body_v = self.collapse(self.arith(st_["op"], accv, self.eval(st_["r"], env2, depth), st_, depth))
+                    finally:
+                        self.loops = saved_loops
+                        self.loops.pop()
+                    tag = ("fold", vkey(it.src), vkey(init), vkey(body_v))
+                    env[vid] = Poly.atom(tag) if isinstance(init, Poly) else Sym(*tag)
+                    return
             self.outer_locals.append(set(env.keys()))
             self.bind(x["pat"], it.fn(Poly.atom(name)), env)
             self.loops.append((name, vkey(it.src)))
@@ -1504,7 +1558,7 @@ class Ev:
                 ks_ = vkey(src_)
                 if isinstance(ks_, tuple) and ks_[:2] == ("sym", "range") and ks_[2] == Poly.const(0).key():
                     src_ = canon_seq(Seq(src_, it.fn)).src          # one element per index of 0..c.len() is one element per element of c
-                env[rid] = Coll(Seq(src_, pushed))
+                env[rid] = Coll(Seq(src_, pushed, it.enumerated))          # (as `seq.map(..)` keeps the flag of the sequence it maps)
             return
         if k == "if":
             c = x["c"]
@@ -1566,8 +1620,9 @@ class Ev:
             raise Unsupported("loop form not modelled at line %s" % x.get("ln"))
         if k == "mcall" and x["m"] in MUTATORS and strip_refs(x["recv"]).get("k") == "path" and strip_refs(x["recv"]).get("res") == "local":
             rid = strip_refs(x["recv"])["id"]
-            if x["m"] == "push" and isinstance(env.get(rid), PushLog):
-                env[rid].items.append((tuple(self.guards), self.eval(x["args"][0], env, depth)))
+            if x["m"] in ("push", "insert", "push_back") and isinstance(env.get(rid), PushLog) and len(x["args"]) in (1, 2):
+                item_ = self.eval(x["args"][0], env, depth) if len(x["args"]) == 1 else Tup([self.eval(a_, env, depth) for a_ in x["args"]])      # map.insert(k, v): the entry (k, v)
+                env[rid].items.append((tuple(self.guards), item_))
                 return
             if x["m"] == "extend" and len(x["args"]) == 1 and "Set<" in (x["recv"].get("ty") or ""):
                 # extending a set is inserting each item: `s.extend(opt)` is `if let Some(v) = opt { s.insert(v) }`, and
@@ -2732,6 +2787,8 @@ def len_base(k):
         return len_base(k[3])
     if isinstance(k, tuple) and k[:2] == ("sym", "m") and len(k) == 5 and k[2] in ("keys", "values", "iter") and not k[4]:
         return len_base(k[3])          # a map has as many keys / values as entries
+    if isinstance(k, tuple) and len(k) == 4 and k[:2] == ("sym", "call") and isinstance(k[2], str) and k[2].endswith("::from_vec") and len(k[3]) == 1:
+        return len_base(k[3][0])       # an array made from a vector has the vector's length
     return k
 
 
@@ -2785,6 +2842,20 @@ def arm_guard(pat, scrut):
     if pat.get("k") == "lit" and pat.get("lk") == "int" and isinstance(scrut, Poly) and scrut.order == 0:
         # `match m { 0 => .. }` tests `m == 0`
         return ("if", vkey(cmp_sym("Eq", scrut, Poly.const(-int(pat["v"]) if pat.get("neg") else int(pat["v"])), True)))
+    if pat.get("k") == "range" and (not isinstance(scrut, Poly) or scrut.order == 0) and not isinstance(scrut, (Alt, Rec, Tup)) and all(pat.get(b_) is None or (pat[b_].get("k") == "lit" and pat[b_].get("lk") == "int") for b_ in ("lo", "hi")):
+        # `match m { 1..=12 => .. }` tests `1 <= m && m <= 12` (integers): the same condition an if-chain on the comparisons leaves
+        val = lambda b_: Poly.const(-int(b_["v"]) if b_.get("neg") else int(b_["v"]))
+        cs = []
+        cmp_ = (lambda op, b_: cmp_sym(op, scrut, b_, True)) if isinstance(scrut, Poly) else (lambda op, b_: Sym("cmp", op, vkey(scrut), vkey(b_)))      # (opaque operand: as `x >= b` evaluates)
+        if pat.get("lo") is not None:
+            cs.append(vkey(cmp_("Ge", val(pat["lo"]))))
+        if pat.get("hi") is not None:
+            cs.append(vkey(cmp_("Le" if pat.get("incl") else "Lt", val(pat["hi"]))))
+        if len(cs) == 1:
+            return ("if", cs[0])
+        if len(cs) == 2:
+            a_, b_ = sorted(cs, key=repr)
+            return ("if", vkey(Sym("and", a_, b_)))
     if pat.get("k") == "lit" and str(pat.get("v")) in ("true", "false"):
         g = guard_of(scrut)                       # `match flag { true => .., false => .. }` is `if flag {..} else {..}`
         return g if str(pat["v"]) == "true" else neg_guard(g)
@@ -2882,8 +2953,8 @@ def length_of(v, ax=None):
     if isinstance(v, Arr) and len(v.dims) == 1 and isinstance(v.dims[0], Poly):
         return v.dims[0]
     if isinstance(v, Coll):
-        return Poly.atom(("len", vkey(v.seq.src), None))
-    return Poly.atom(("len", vkey(v), None))
+        return Poly.atom(("len", len_base(vkey(v.seq.src)), None))
+    return Poly.atom(("len", len_base(vkey(v)), None))
 
 
 def as_poly(v):
